@@ -414,6 +414,7 @@ def rw_throw(s, R):
 
 
 def rw_generic(s, R, scalar_types=()):
+    s = R.sub('typed_local_enum', r'\benum\s*:\s*[\w:]+\s*\{', 'enum {', s)
     s = rw_casts(s, R)
     s = R.sub('std_string', r'\bstd::string\b(?!\s*[{(])', 'vstr', s)
     s = R.sub('numeric_limits',
